@@ -53,7 +53,7 @@ func (c *CharReferenceMap) Lookup(symbol rune) any {
 	} else {
 		for _, interval := range c.otherIntervals {
 			if interval.InRange(symbol) {
-				return interval.Reference
+				return interval.Reference()
 			}
 		}
 		return nil
